@@ -6,5 +6,6 @@ CONSTANTS
   MaxDepth = 1000
   MaxLen = 64
   Forms = {"plain", "open", "neg", "over"}
+  ColFamily = "small"
   PairFamily = "all"
 INVARIANT Report
